@@ -1,8 +1,31 @@
-"""C04 — scheduler family; shared stream in sched.py"""
+"""C04 — scheduler family; shared stream in sched.py; plus the outcome / handler clauses of forcibly stopped REAL runs
+   (real agent, real command executor: shared with C05's real-process stop stream)"""
+import json, os, re
 import common, sched
 
 PROP = "C04"
 
 
+def tie_names(area):
+    p = os.path.join(common.LEAN, "BdModel", "Tie", area + ".lean")
+    return re.findall(r"^theorem tie_(\w+) ", open(p).read(), re.M) if os.path.exists(p) else []
+
+
 def run(chk, replay):
-    sched.run_property(chk, PROP, replay)
+    import p_c05
+    if replay and "real_stop_case" in json.load(open(replay)).get("case", {}):
+        p_c05.real_stop_stream(chk, PROP); return
+    if replay and "agent_case" in json.load(open(replay)).get("case", {}):
+        import p_c08
+        p_c08.agent_level(chk, PROP, 0, only=json.load(open(replay))["case"]["agent_case"]); return
+    chk.trusted = common.TRUSTED_COMMON + ["quiescence discipline of the scheduler harness (one completion released at a time)"]
+    chk.assumptions = [sched.NOTES.get(PROP, "")]
+    # the handlers run on the context the agent hands to Schedule: Agent.Run / Agent.signal are part of what C04 rests on
+    common.lean_obligations(chk, "BdModel/Props/%s.lean" % PROP,
+                            {"Sched": sched.SCHED_TIE, "Graph": sched._ties_of("Graph"), "Agent": tie_names("Agent")},
+                            extra_targets=["BdModel.Sched.Tables"])
+    sched.run_stream(chk, PROP, replay)
+    if not replay:
+        p_c05.real_stop_stream(chk, PROP)
+        import p_c08
+        p_c08.agent_level(chk, PROP, 40 if chk.tier == "quick" else 400)
